@@ -578,6 +578,27 @@ def r8_expected_type_context(repo):
             ok = any(g.dominates(g.node(sv), g.node(st)) for sv in saves)
             obs.append(Ob("C03-R8", "%s:set@%d:protected-by-a-save" % (name, st.lineno - fn.lineno), _w(m, st), ok,
                           "`%s` changes the expected-type context without saving the previous value first" % src(st)[:60]))
+    # the scope in which declarations are looked up (`_namespace`) obeys the same discipline where it is set by hand (the
+    # decorator change_namespace does it for the declaration visitors): every store other than the restore is followed, on
+    # every path to the exit, by `self._namespace = <saved>` - otherwise the rest of the function body is analysed in the
+    # scope of a branch and resolves names to the wrong declarations
+    for name, m in sorted(cls.methods.items()):
+        fn = m.node
+        saves = [n for n in iter_own_nodes(fn) if isinstance(n, ast.Assign) and src(n.value) == "self._namespace" and
+                 isinstance(n.targets[0], ast.Name)]
+        stores = [n for n in iter_own_nodes(fn) if isinstance(n, ast.Assign) and src(n.targets[0]) == "self._namespace"]
+        if name in ("__init__",) or not stores or (not saves and name == "visit_program"):
+            continue
+        g = cfg_of(fn)
+        saved = {x.targets[0].id for x in saves}
+        restores = [s_ for s_ in stores if src(s_.value) in saved]
+        for st in stores:
+            if st in restores:
+                continue
+            ok = any(g.postdominates(g.node(r), g.node(st)) for r in restores)
+            obs.append(Ob("C03-R8", "%s:_namespace@%d:restored-on-every-path" % (name, st.lineno - fn.lineno), _w(m, st), ok,
+                          "`%s` changes the lookup scope of the analysis and no `self._namespace = <saved>` post-dominates it"
+                          % src(st)[:70]))
     # sub-expressions in a non-result position (a receiver, a condition, the operands of a logical / equality /
     # comparison expression, the object of a field access) have nothing to do with the type expected of the whole
     # expression: they are visited with the expected type cleared
